@@ -1219,7 +1219,14 @@ func builtinIsTruthy(_ *lisp.LEnv, _ *lisp.LVal) *lisp.LVal {
 		}
 		switch input.Type {
 		case lisp.LArray:
-			if input.Cells[0].Cells[0].Int > 0 {
+			// An array is truthy when it holds at least one element.  The
+			// dimension list may be empty (a zero-dimensional array holds
+			// exactly one element) or have several entries.
+			size := 1
+			for _, dim := range input.Cells[0].Cells {
+				size *= dim.Int
+			}
+			if size > 0 {
 				return lisp.Nil()
 			}
 		case lisp.LSortMap:
